@@ -1,6 +1,7 @@
 """C07 - exceptions unwind to the right handler; finally runs exactly once.
 K3 obligations on VM._throw and the run loops, K5 try/catch/finally schemes (contracts/C05_control.py),
 bounded products: throw site x handler placement across native frames, error objects."""
+from pyvc import structural as _S_
 from pyvc import groups
 from pyvc.groups import ob
 import contracts.C05_control  # noqa: registers C07.bounded.semantics
@@ -16,7 +17,7 @@ def c07_struct(tier="quick", seed=0):
     import ast
     out = []
     th = S.fn("microjs.vm", "VM._throw")
-    src = ast.unparse(th)
+    src = _S_.unparse(th)
     checks = {
         "pops-innermost-handler": "frame_idx, catch_ip, stack_depth = self.exception_handlers.pop()" in src,
         "truncates-frames-to-handler": "while len(self.call_stack) > frame_idx + 1:" in src and "self.call_stack.pop()" in src,
@@ -31,21 +32,21 @@ def c07_struct(tier="quick", seed=0):
     checks["state-set-before-unwind"] = 0 <= i1 < i2
     for k, v in checks.items():
         out.append(ob(f"C07.struct.throw.{k}", v, "K3", f"VM._throw: {k}: {v}"))
-    ex = ast.unparse(S.fn("microjs.vm", "VM._execute"))
+    ex = _S_.unparse(S.fn("microjs.vm", "VM._execute"))
     out.append(ob("C07.struct.execute-continues-after-unwind", "except NativeUnwind:\n                pass" in ex or "except NativeUnwind:\n    pass" in ex.replace("        ", ""), "K3",
                   "the main loop resumes at the handler after a NativeUnwind"))
     loops = [f for f in S.dispatchers() if f.name != "_execute"]
     ok = False
     if len(loops) == 1:
-        ls = ast.unparse(loops[0])
+        ls = _S_.unparse(loops[0])
         ok = "except NativeUnwind:" in ls and "if len(self.call_stack) <= call_stack_len:" in ls and "raise" in ls
     out.append(ob("C07.struct.nested-loop-reraises-foreign-unwind", ok, "K3", "a nested run loop continues only when the handler belongs to one of its frames"))
     # TRY_START records frame index, catch address and operand depth
-    ops = ast.unparse(S.fn("microjs.vm", "VM._execute_opcode"))
+    ops = _S_.unparse(S.fn("microjs.vm", "VM._execute_opcode"))
     out.append(ob("C07.struct.try-start-records", "self.exception_handlers.append((len(self.call_stack) - 1, arg, len(self.stack)))" in ops, "K3",
                   "TRY_START records (frame index, catch ip, operand depth)"))
     # runtime errors become objects built by the matching constructor
-    hp = ast.unparse(S.fn("microjs.vm", "VM._handle_python_exception"))
+    hp = _S_.unparse(S.fn("microjs.vm", "VM._handle_python_exception"))
     out.append(ob("C07.struct.error-built-by-constructor", "error_constructor = self.globals.get(error_type)" in hp and "error_constructor._call_fn(message)" in hp, "K3",
                   "host-level errors are turned into objects by the constructor of the same name"))
     return out
